@@ -358,6 +358,41 @@ def check_reverse_arms(ctx, prog, tag):
     ctx.floor("C07.V10 enumerator arms of Value::reverse" + tag, n, 5)
 
 
+def check_map_order(ctx, prog, tag):
+    """V1f: with the insertion-ordered map (feature preserve_order: IndexMap) two maps with the same pairs in another
+    order are `==` (equality looks every key up).  The ordering and the hash must not depend on the enumeration order
+    either: the (Map, Map) arm of `cmp` has to sort the pairs (or compare through lookups) and the object hash has to
+    combine the pairs commutatively."""
+    uses_indexmap = any("indexmap::" in c.name for f in prog.fns.values() if f.crate == "minijinja" for c in f.calls())
+    if not uses_indexmap:
+        ctx.count("C07.V1f not applicable: maps enumerate in key order (BTreeMap)" + tag)
+        return
+    OR = "minijinja::value::object::ObjectRepr"
+    cf = prog.fns.get(CMP)
+    if cf is not None:
+        sws = {s_[0]: arms.variant_targets(prog, cf, s_[0], OR) for s_ in arms.enum_switches(prog, cf, OR)}
+        if sws:
+            entry = min(sws, key=lambda b: len(cfg.dominators(cf).get(b, ())))
+            t1 = sws[entry].get("Map")
+            t2 = sws.get(t1, {}).get("Map") if t1 in sws else t1
+            region = cfg.region_dominated_by(cf, t2) if t2 is not None else set()
+            names = [c.name for c in arms.calls_in(cf, region)]
+            canonical = any(x.endswith(("::sort", "::sort_by", "::sort_unstable", "::sort_by_key", "BTreeMap<K, V>>::from_iter")) or
+                            "btree" in x for x in names)
+            ctx.ob("C07.V1f.map-order-does-not-depend-on-insertion-order", tag + "cmp", canonical,
+                   "the (Map, Map) arm of cmp compares the pairs in enumeration order (%s): `{'a':1,'b':2} == {'b':2,'a':1}` is "
+                   "true but the two maps are also ordered (`<` is true, `unique` keeps both)" %
+                   [x.split("::")[-1] for x in names][:6], cf.loc)
+    hf = prog.fns.get("<minijinja::value::object::DynObject as core::hash::Hash>::hash")
+    if hf is not None:
+        names = [c.name for c in hf.calls()]
+        commut = any(x.endswith(("::wrapping_add", "::bitxor", "::sort", "::sort_by")) for x in names) or any(
+            s_.get("rv", {}).get("k") == "bin" and s_["rv"].get("op") in ("BitXor", "Add") for _, _, s_ in hf.all_stmts())
+        ctx.ob("C07.V1f.map-order-does-not-depend-on-insertion-order", tag + "hash", commut,
+               "the object hash feeds the pairs to the hasher in enumeration order: equal maps built in a different order "
+               "hash differently", hf.loc)
+
+
 def const_int_(op):
     from ..facts import const_int
     return const_int(op)
@@ -534,6 +569,7 @@ def run(ctx):
         check_mixed_orderings(ctx, prog, tag, rule="C07.V8.mixed-ordering-casts-the-float-only-below-saturation", floor_name="C07.V8")
         check_object_pairs(ctx, prog, tag)
         check_reverse_arms(ctx, prog, tag)
+        check_map_order(ctx, prog, tag)
         # ---- V9 (= C08.N7): `==` goes through coerce (as_f64 must call an integer exact exactly when it is), the order
         # through the exact fallbacks; the two agree only if as_f64's exactness test is the guarded round trip
         from .c08 import check_exactness_of_integer_floats
